@@ -83,6 +83,7 @@ func c10Jobs(thorough bool) []json.RawMessage {
 		{Name: "2x2-max2-nowait", N: 2, M: 2, MaxConns: 2},
 		{Name: "2x1-max1-wait-reqtimeout", N: 2, M: 1, MaxConns: 1, Wait: true, ReqTO: true},
 		{Name: "2x1-max1-wait-shortreqtimeout", N: 2, M: 1, MaxConns: 1, Wait: true, ReqTO: true, ShortReqTO: true},
+		{Name: "2x1-max1-wait-reqtimeout-shortreadtimeout", N: 2, M: 1, MaxConns: 1, Wait: true, ReqTO: true, ShortReadTO: true},
 		{Name: "1x3-max1-reuse-head", N: 1, M: 3, MaxConns: 1, ReuseHead: true},
 		{Name: "1x3-max1-maxconnduration", N: 1, M: 3, MaxConns: 1, MaxConnDur: true},
 	}
@@ -149,6 +150,22 @@ func c10Jobs(thorough bool) []json.RawMessage {
 				p := append([]int{}, ok...)
 				p[i] = c10.AOkClose
 				add(c10.Job{Sc: sc, Plan: c10.Plan{Answers: p}, Bound: bound})
+			}
+			continue
+		}
+		if sc.ShortReadTO {
+			// the subject is the deadline arithmetic: plans with peers that stall or answer late only
+			for _, a := range []int{c10.AStall, c10.ASlow} {
+				for i := 0; i < k; i++ {
+					p := append([]int{}, ok...)
+					p[i] = a
+					add(c10.Job{Sc: sc, Plan: c10.Plan{Answers: p}, Bound: bound})
+				}
+				for _, b := range []int{c10.AStall, c10.ASlow} {
+					p := append([]int{}, ok...)
+					p[0], p[1] = a, b
+					add(c10.Job{Sc: sc, Plan: c10.Plan{Answers: p}, Bound: bound})
+				}
 			}
 			continue
 		}
